@@ -143,7 +143,7 @@ def run_tlc(module, cfg, workers=4, timeout=600, env=None, heap="4g", extra=(), 
             deque=False):
     """Runs TLC; returns dict(rc, out, states, distinct, depth, ok, violated, wall_s)."""
     meta = scratch("tlc")
-    cmd = list(JAVA) + ["-Xmx" + heap]
+    cmd = list(JAVA) + ["-Xmx" + heap, "-Djava.io.tmpdir=" + meta]     # TLC's own temporary directories go away with the metadir
     if deque:
         cmd.append("-Dtlc2.tool.queue.IStateQueue=StateDeque")
     cmd += ["-cp", CP, "tlc2.TLC", "-noGenerateSpecTE", "-workers", str(workers), "-metadir", meta, "-config", cfg]
@@ -163,7 +163,7 @@ def run_tlc(module, cfg, workers=4, timeout=600, env=None, heap="4g", extra=(), 
         rc, timed_out = -9, True
     finally:
         rmtree(meta)
-    r = {"rc": rc, "out": out, "wall_s": time.time() - t0, "timed_out": timed_out, "cmd": " ".join(cmd[3:])}
+    r = {"rc": rc, "out": out, "wall_s": time.time() - t0, "timed_out": timed_out, "cmd": " ".join(cmd[4:])}
     m = None
     for m in _STATS.finditer(out):
         pass
